@@ -216,6 +216,21 @@ func isoMain(args []string) {
 	for gi, K := range sizes {
 		group := fmt.Sprintf("g%d", gi)
 		scs := g.famRandom(group+"x", K, 6)
+		// every package also declares `Account` with the same field names but different CEL rules (and
+		// therefore different imports); in odd groups all packages share one package NAME (different directories)
+		for k, sc := range scs {
+			owner := fmt.Sprintf("value.startsWith('p%d')", k)
+			if k%3 == 1 {
+				owner = fmt.Sprintf("size(value) > %d", k)
+			}
+			sc.Raw = fmt.Sprintf("type Account struct {\n\t//govalid:cel=value >= %d\n\tAge int\n\n\t//govalid:cel=%s\n\tOwner string\n}\n", 10+k, owner)
+		}
+		pkgName := func(sc *Scenario) string {
+			if gi%2 == 1 {
+				return "v1"
+			}
+			return "p" + sc.ID
+		}
 		srcOf := map[string]string{}
 		var allSrc []string
 		// ---- alone: every package in an invocation of its own
@@ -223,7 +238,7 @@ func isoMain(args []string) {
 		soloRoot := filepath.Join(mod, group+"solo")
 		for _, sc := range scs {
 			pkg := "p" + sc.ID
-			srcOf[pkg] = sc.Source(pkg)
+			srcOf[pkg] = sc.Source(pkgName(sc))
 			allSrc = append(allSrc, srcOf[pkg])
 			writePkg(soloRoot, pkg, map[string]string{"x.go": srcOf[pkg]})
 			if o, c := r.run(mod, 4, base.govalid, "./"+group+"solo/"+pkg); c != 0 {
@@ -298,31 +313,31 @@ func isoMain(args []string) {
 				rev.Decls = append(rev.Decls, sc.Decls[i])
 			}
 			permRoot := filepath.Join(mod, group+"perm")
-			writePkg(permRoot, pkg, map[string]string{"x.go": rev.Source(pkg)})
+			writePkg(permRoot, pkg, map[string]string{"x.go": rev.Source(pkgName(sc))})
 			o, c := r.run(mod, 16, base.govalid, "./"+group+"perm/"+pkg)
 			r.emit(IsoRow{Group: group, Kind: "exit", Pkg: pkg, Cfg: "reversed declarations", OK: c == 0, Detail: tail(o, 800)})
-			r.compare(group, "perm", pkg, "declarations reversed", solo[pkg], validators(filepath.Join(permRoot, pkg)), rev.Source(pkg), "")
+			r.compare(group, "perm", pkg, "declarations reversed", solo[pkg], validators(filepath.Join(permRoot, pkg)), rev.Source(pkgName(sc)), "")
 			// split: first declaration (and the named types) in x.go, the rest in y.go
 			a, b := *sc, *sc
 			a.Decls, b.Decls = sc.Decls[:1], sc.Decls[1:]
 			b.Named = nil
 			b.Raw = ""
 			splitRoot := filepath.Join(mod, group+"split")
-			writePkg(splitRoot, pkg, map[string]string{"x.go": a.Source(pkg), "y.go": b.Source(pkg)})
+			writePkg(splitRoot, pkg, map[string]string{"x.go": a.Source(pkgName(sc)), "y.go": b.Source(pkgName(sc))})
 			o, c = r.run(mod, 16, base.govalid, "./"+group+"split/"+pkg)
 			r.emit(IsoRow{Group: group, Kind: "exit", Pkg: pkg, Cfg: "split over two files", OK: c == 0, Detail: tail(o, 800)})
 			got := map[string]string{}
 			for n, s := range validators(filepath.Join(splitRoot, pkg)) {
 				got["x_"+strings.TrimPrefix(strings.TrimPrefix(n, "x_"), "y_")] = s
 			}
-			r.compare(group, "split", pkg, "declarations split over x.go and y.go", solo[pkg], got, a.Source(pkg)+"\n// ---- y.go ----\n"+b.Source(pkg), "")
+			r.compare(group, "split", pkg, "declarations split over x.go and y.go", solo[pkg], got, a.Source(pkgName(sc))+"\n// ---- y.go ----\n"+b.Source(pkgName(sc)), "")
 			break
 		}
 		// ---- history: generate, shrink every struct, regenerate; compare with the shrunk package generated alone
 		for _, sc := range scs[:min(len(scs), 4)] {
 			pkg := "p" + sc.ID
 			small := shrink(sc)
-			smallSrc := small.Source(pkg)
+			smallSrc := small.Source(pkgName(sc))
 			if smallSrc == srcOf[pkg] {
 				continue
 			}
